@@ -219,18 +219,15 @@ func (in *Interp) evalRange(lo, hi *Value) *Value {
 	if lo.K != KInt || hi.K != KInt {
 		fail("range bounds must be int")
 	}
-	d := hi.I - lo.I
-	if (hi.I >= lo.I) != (d >= 0) {
-		refuse("range span overflows")
-	}
 	step := int64(1)
-	if d < 0 {
-		step, d = -1, -d
+	span := uint64(hi.I) - uint64(lo.I)
+	if hi.I < lo.I {
+		step, span = -1, uint64(lo.I)-uint64(hi.I)
 	}
-	if d+1 > 512 {
+	if span >= 512 {
 		fail("range too long")
 	}
-	l := make([]*Value, 0, d+1)
+	l := make([]*Value, 0, span+1)
 	for i := lo.I; ; i += step {
 		l = append(l, Int(i))
 		if i == hi.I {
@@ -272,6 +269,7 @@ func (in *Interp) getItem(obj, idx *Value) *Value {
 		r := []rune(obj.S)
 		i, ok := realIndex(idx.I, int64(len(r)))
 		if !ok {
+			in.Events[CornerStrIndex] = true
 			fail("string index out of range")
 		}
 		return Str(string(r[i : i+1]))
